@@ -93,6 +93,18 @@ add('C05',
     'Does not decide that the leaf/finally-subgraph algorithm yields every executable path for every nesting; exception flow from calls is exempt by the property.',
     'DESIGN.md section 4, C05')
 
+add('C06',
+    'set-algebra evaluation of the reaching-definitions transfer function and of the state class operators to membership formulas over named atoms, compared with the required bounds by exhaustive truth table; structural checks of the join loop, the change flag (CFG dominance), the worklist driver (per-iteration path counting + re-enqueue formula) and the defined-on-entry aggregation; consumer formula in control_flow',
+    'Decides the mechanism of the analysis: join over all predecessors; _NodeState.__or__/__sub__ are union/difference; defs_out contains (bound ∪ globals − deleted) ∪ params ∪ (defs_in − kill) with kill inside modified ∪ deleted; scope-less nodes pass through; the revisit flag compares the propagated out-state; the driver evaluates every dequeued node and re-enqueues on change or first visit; defined-on-entry unites all statement predecessors; for-targets are annotated at the header node; the consumer subtracts exactly defined/global/nonlocal names.',
+    'These are the equations and the fixed-point machinery, not soundness of the solution with respect to executions (which depends on the CFG, C05).',
+    'DESIGN.md section 4, C06')
+
+add('C07',
+    'set-algebra evaluation of liveness.Analyzer.visit_node (neighbour-union and closure loops included) to a membership formula and truth-table comparison with the required lower bounds; structural checks of the reaching-function-definitions analysis, change flags, worklist driver, block-level aggregation, edge mirroring and the for-header scope placement in activity / cfg',
+    'Decides the mechanism: live_out is the union over all successors; live_in contains read ∪ (live_out − kill) with kill inside modified ∪ deleted; every free name of a reaching local function (read-only, or declared nonlocal) is live-in regardless of the kill set; the reaching-function analysis joins over all predecessors, adds def nodes and reports changes of its out-state; revisit flag compares in-states; driver runs backward to a fixed point; block live-out unites all statement successors (whose edges are mirrored from the node graph); block live-in is read at the entry node; the for target assignment sits in the header node\'s scope.',
+    'Equations and fixed-point machinery only; soundness w.r.t. executions additionally depends on the CFG (C05) and the scope analysis (C08).',
+    'DESIGN.md section 4, C07')
+
 NOT_APPLICABLE = {
     'C12': 'quantifies over run-time tracebacks, generated line layout and source-map contents, which exist only after the pipeline has run on a program; the only shape-level clause (exception re-creation table) is too small a part to claim the property through (DESIGN.md section 5)',
 }
